@@ -380,6 +380,14 @@ class StmtMixin:
         if isinstance(it, StrOp) and it.op == "chain":
             parts = [self.sym_elem(a, site) for a in it.args]
             return parts[0][0], "chain(" + ",".join(p[1] for p in parts) + ")"
+        sp, sl = (it.args[0], it.args[1]) if isinstance(it, StrOp) and it.op == "slice" and isinstance(it.args[0], StrOp) else (it, None)
+        if isinstance(sp, StrOp) and sp.op == "split" and isinstance(sp.args[0], UPrim) and isinstance(sp.args[1], str):
+            # the components of a user string (a dotted module name): one generic component
+            src = sp.args[0]
+            d = UPrim(src.parent, src.field, src.typ, index=src.index)
+            d.derived = f"split({sp.args[1]!r})[*]"
+            d.facts = {f"contains:{sp.args[1]}": False}
+            return d, f"{src.short_path()}.split({sp.args[1]!r})" + (f"[{sl}]" if sl is not None else "")
         if isinstance(it, StrOp) and it.op == "slice" and isinstance(it.args[0], (UList, PList)):
             e, d = self.sym_elem(it.args[0], site) if isinstance(it.args[0], UList) else (Unknown("elem"), "list")
             return e, f"{d}[{it.args[1]}]"
